@@ -51,3 +51,9 @@ def register_mro_shapes(reg):
     # Dependency subclasses collections.deque: its element sequence is the builtin view __items__
     reg.shape('Dependency', {'__items__': 'Seq[Obj[Cls]]'})
     reg.shape('DependencyList', {'_lists': 'Seq[Ref[Dependency]]'})
+
+
+def register_visitor_shapes(reg):
+    reg.shape('_BaseVisitor', {})
+    reg.shape('Visitor', {'extensions': 'Ref[ExtList]'}, bases=('_BaseVisitor',))
+    reg.shape('ExtList', {'_visitors': 'DefaultMap[Enum[When],Seq[Obj[Ext]]]'})
